@@ -390,7 +390,7 @@ func domAdopt(r *engine.Run, rule string) {
 // ---- DOM-samekey (C05): an unchanged re-write is not reported as a change ----------
 
 func domSameKey(r *engine.Run, rule string) {
-	f := r.Fn(rule, pkgUtil, "MerklePatriciaTrie", "insertNode")
+	_, f := mptStoreFn(r, rule)
 	if f == nil {
 		return
 	}
